@@ -526,8 +526,10 @@ class Spec(object):
 
                 continue
 
-            # Parse inline parameters from value if value is a string.
-            if isinstance(prop_value, str):
+            # Parse inline parameters from value if value is a string of inline parameters. A
+            # string that merely contains name=value somewhere, i.e. a YAQL expression with an
+            # equality test written without spaces, is inspected as the expression that it is.
+            if isinstance(prop_value, str) and re.match(r"^\s*\w+=", prop_value):
                 inline_params = args_util.parse_inline_params(prop_value)
 
                 if inline_params:
